@@ -54,6 +54,12 @@ type wshape struct {
 	symref    bool
 	blockSize uint32
 	sha256    bool
+	// delShort: every transaction also deletes the short ref "a".  With 64-byte blocks the
+	// long name then fits only a block without the file header; once a compaction at the
+	// bottom of the stack drops the tombstone, the long name would open the merged table and
+	// the writer refuses it: no compaction ever succeeds (recorded finding C17-uncompactable)
+	delShort bool
+	maxN     int
 }
 
 func runC17(c *ctx) error {
@@ -137,6 +143,7 @@ func c17Workloads(c *ctx) error {
 		{name: "2ref-sym-b256", refsPerTx: 2, nameLen: 30, fresh: true, symref: true, blockSize: 256},
 		{name: "4ref-sha256", refsPerTx: 4, logsPerTx: 1, nameLen: 10, fresh: true, sha256: true},
 		{name: "10ref-short", refsPerTx: 10, nameLen: 5, fresh: true},
+		{name: "uncompactable-b64", refsPerTx: 1, nameLen: 17, fresh: true, symref: true, blockSize: 64, delShort: true, maxN: 12},
 	}
 	N := 150
 	if c.thorough() {
@@ -145,6 +152,13 @@ func c17Workloads(c *ctx) error {
 	var summary []map[string]interface{}
 	for si, sh := range shapes {
 		for _, mode := range []string{"split", "public"} {
+			if sh.delShort && mode == "split" {
+				continue // the explicit AutoCompact of the split mode reports the writer's refusal as an error
+			}
+			N := N
+			if sh.maxN > 0 && N > sh.maxN {
+				N = sh.maxN
+			}
 			dir := filepath.Join(c.work, fmt.Sprintf("w%d-%s", si, mode))
 			os.MkdirAll(dir, 0755)
 			cfg := reftable.Config{BlockSize: sh.blockSize}
@@ -168,6 +182,11 @@ func c17Workloads(c *ctx) error {
 				err := st.Add(func(w *reftable.Writer) error {
 					w.SetLimits(ui, ui)
 					// names ascending within the transaction
+					if sh.delShort {
+						if err := w.AddRef(&reftable.RefRecord{RefName: "a", UpdateIndex: ui}); err != nil {
+							return err
+						}
+					}
 					for r := 0; r < sh.refsPerTx; r++ {
 						var nm string
 						if sh.fresh {
